@@ -58,6 +58,13 @@ func genHistory15(src *choice.Src, cfg *gen.Cfg) []Op {
 			kinds = append(kinds, "Get", "Get", "Get", "OvSvc", "Getter")
 		}
 		kinds = append(kinds, "Env")
+		if i > 1 && src.Chance("renew", 1, 12) {
+			// a second container built from the same generated constructor: nothing of the first one
+			// (overrides, caches) may carry over
+			ops = append(ops, Op{Kind: "New"})
+			m.construct()
+			continue
+		}
 		if len(fnArgs)+len(ctorE) > 0 {
 			kinds = append(kinds, "Arm")
 		}
